@@ -134,10 +134,19 @@ func runC06(tr *Trace, sc *Script, rec *Recorder, scratch string) *Violation {
 	// repeatDelivered[n]: the driver was handed block number n again (different hash) while n was stored
 	repeatDelivered := map[uint64]bool{}
 	var nodeRef **c06Node
+	// pending: blocks the driver has handed to the detector (AddBlockToTrack) that are not, or not yet, in its store.
+	// The detector's table calls these "processed": when one of them is replaced a rewind is what the property asks
+	// for, whether or not the store write ever succeeded (disk full, crash between the two databases).
+	pending := map[storedBlock]bool{}
+	// answered: tracked blocks whose replacement has already been answered by a rewind to at or below them; a row the
+	// detector keeps for such a block justifies nothing further (each replacement justifies one rewind)
+	answered := map[storedBlock]bool{}
 	onTrack := func(num uint64, hash common.Hash) {
 		if nodeRef == nil || *nodeRef == nil {
 			return
 		}
+		pending[storedBlock{Num: num, Hash: hash}] = true
+		delete(answered, storedBlock{Num: num, Hash: hash})
 		if !chain.IsCanonical(num, hash) {
 			// the driver hands over a block that was replaced while it waited (in the download buffer or in a retry)
 			rec.Stats.Inc("blocks_handed_over_after_they_were_replaced")
@@ -186,6 +195,10 @@ func runC06(tr *Trace, sc *Script, rec *Recorder, scratch string) *Violation {
 		vp := l1infotreesync.VerifProcessorOf(n.syncer)
 		n.store = &L1Store{path: storePath, P: vp, F: n.syncer}
 		node = n
+		// what a dead incarnation answered is not durable: the detector acts on the rows its table still holds
+		for k := range answered {
+			delete(answered, k)
+		}
 		reorgEventsAtStart = 0
 		if db, err := sql.Open("sqlite3", "file:"+rdPath+"?mode=ro"); err == nil {
 			_ = db.QueryRow("SELECT COALESCE(MAX(rowid),0) FROM reorg_event").Scan(&reorgEventsAtStart)
@@ -236,8 +249,28 @@ func runC06(tr *Trace, sc *Script, rec *Recorder, scratch string) *Violation {
 	}
 
 	var prevStored []storedBlock
-	var trackedAtCrash []storedBlock
 	replacedEver := false
+	// trackedRows: what the detector's durable table holds right now (the harness's own read: not a statement of the node)
+	trackedRows := func() map[storedBlock]bool {
+		out := map[storedBlock]bool{}
+		if p := DisarmFault(rdPath); p != nil {
+			defer ArmFault(rdPath, p)
+		}
+		if db, err := sql.Open("sqlite3", "file:"+rdPath+"?mode=ro"); err == nil {
+			if rows, err := db.Query("SELECT num, hash FROM tracked_block"); err == nil {
+				for rows.Next() {
+					var n uint64
+					var h string
+					if rows.Scan(&n, &h) == nil {
+						out[storedBlock{Num: n, Hash: common.HexToHash(h)}] = true
+					}
+				}
+				rows.Close()
+			}
+			db.Close()
+		}
+		return out
+	}
 	// oracle (a): a stored block that is still canonical must never disappear
 	checkStored := func(ctx string) *Violation {
 		cur, err := stored()
@@ -255,11 +288,31 @@ func runC06(tr *Trace, sc *Script, rec *Recorder, scratch string) *Violation {
 				justified = true
 			}
 		}
-		for _, s := range trackedAtCrash {
-			if s.Num != 0 && !chain.IsCanonical(s.Num, s.Hash) {
+		// ... or by a block handed to the detector and still tracked by it (now, or at the previous look: the detector
+		// drops its rows right after the rewind) that is no longer canonical
+		cur2 := trackedRows()
+		for s := range cur2 {
+			pending[s] = true
+		}
+		for s := range pending {
+			if s.Num != 0 && !have[s] && !answered[s] && !chain.IsCanonical(s.Num, s.Hash) {
 				justified = true
 			}
 		}
+		lowestRemoved := uint64(0)
+		for _, s := range prevStored {
+			if !have[s] && s.Num != 0 && (lowestRemoved == 0 || s.Num < lowestRemoved) {
+				lowestRemoved = s.Num
+			}
+		}
+		if lowestRemoved != 0 {
+			for s := range pending {
+				if s.Num >= lowestRemoved {
+					answered[s] = true
+				}
+			}
+		}
+		pending = cur2
 		for _, s := range prevStored {
 			if !have[s] && s.Num != 0 && !justified {
 				return &Violation{Oracle: "spurious-rewind", Sig: "c06/spurious-rewind",
@@ -393,20 +446,8 @@ func runC06(tr *Trace, sc *Script, rec *Recorder, scratch string) *Violation {
 				prevStored = cur
 			}
 			// blocks the dead incarnation had handed to the detector but not yet committed to its store count as
-			// "processed" for the never-rewound clause: their replacement justifies a rewind
-			if db, err := sql.Open("sqlite3", "file:"+rdPath+"?mode=ro"); err == nil {
-				if rows, err := db.Query("SELECT num, hash FROM tracked_block"); err == nil {
-					for rows.Next() {
-						var n uint64
-						var h string
-						if rows.Scan(&n, &h) == nil {
-							trackedAtCrash = append(trackedAtCrash, storedBlock{Num: n, Hash: common.HexToHash(h)})
-						}
-					}
-					rows.Close()
-				}
-				db.Close()
-			}
+			// "processed" for the never-rewound clause: their replacement justifies a rewind (see checkStored)
+			pending = trackedRows()
 			rec.Step("XI")
 		}
 		switch op.K {
